@@ -4,6 +4,7 @@
    OutOfFuel (the loop would still be running).  [graceful r] := r <> Crash /\ r <> OutOfFuel. *)
 From Coq Require Import List NArith ZArith Bool.
 From SqfsV Require Import C07.Res C07.GenC07 C07.HardLinkModel C07.HardLinkProofs.
+From SqfsV Require Import C07.NumModel C07.NumProofs C07.TarModel C07.TarProofs C07.TextModel C07.TextProofs.
 Import ListNotations.
 Local Open Scope N_scope.
 
@@ -11,13 +12,14 @@ Local Open Scope N_scope.
 (* (1) hard-link resolution (hardlink.c, fstree.c)                     *)
 (* ================================================================== *)
 
-(* The repaired resolver terminates on EVERY fstree value (well-formed or not), with a loop
-   budget of max_hops + 1 per walk, max_hops = 1 + number of listed links. *)
+(* The resolver (hardlink.c as it is now, with the hop bound of fix F11) terminates on EVERY fstree
+   value -- well-formed or not, cyclic or not; there is NO no-cycle hypothesis -- with a loop budget of
+   max_hops + 1 per walk, max_hops = 1 + number of listed links. *)
 Theorem resolve_terminates : forall fs, resolve_all fs <> OutOfFuel.
 Proof. exact resolve_terminates_l. Qed.
 Print Assumptions resolve_terminates.
 
-(* The code as it is in the unpatched tree does not: on the tree that tar2sqfs builds from
+(* The code as it was before F11 (resolve_all_old: only "node == start" stops a walk) does not: on the tree that tar2sqfs builds from
    hard links b->c, c->b, a->b (a resolved first) the walk is still running after ANY number
    of iterations (finding F11). *)
 Theorem hardlink_cycle_refuted : forall fuel, resolve_all_old fuel built_cyc_fs = OutOfFuel.
@@ -112,3 +114,150 @@ Example ex_link_to_dir : build_and_resolve [mkEntry [100] EDir; mkEntry [97] (EH
 Proof. vm_compute. reflexivity. Qed.
 Example ex_endless : endless (heap built_cyc_fs) 3%nat.
 Proof. exact built_cyc_endless. Qed.
+
+(* ================================================================== *)
+(* (2) the tar reader (read_header.c, pax_header.c, number.c,          *)
+(*     read_sparse_map_{old,new}.c, record_to_memory.c)                *)
+(* ================================================================== *)
+
+(* For EVERY byte stream: read_header neither leaves one of its buffers (the 512-byte header, the
+   PAX record of entsize + 1 bytes, the 1024-byte window of the GNU 1.0 sparse map, the xattr object)
+   nor loops beyond its budget of one iteration per input byte. *)
+Theorem read_header_graceful : forall s, graceful (read_header s).
+Proof. exact read_header_graceful_l. Qed.
+Print Assumptions read_header_graceful.
+
+(* A returned header has consumed input ... *)
+Theorem read_header_progress : forall s h s', read_header s = Ok (RH_hdr h s') -> (length s' < length s)%nat.
+Proof. exact read_header_progress_l. Qed.
+Print Assumptions read_header_progress.
+
+(* ... hence the walk over the whole archive (header, skip record and padding, next header) terminates
+   within one iteration per input byte and never crashes. *)
+Theorem tar_walk_graceful : forall s, graceful (tar_walk_all s).
+Proof. exact tar_walk_all_graceful_l. Qed.
+Print Assumptions tar_walk_graceful.
+
+(* a partial header record is an error (not the end of the archive) *)
+Theorem read_header_partial : forall s, (0 < length s < 512)%nat -> exists e, read_header s = Err e.
+Proof. exact read_header_partial_l. Qed.
+Print Assumptions read_header_partial.
+
+(* The lemmas that carry it.  pax_len_guard: one PAX record on a buffer of endp + 1 bytes whose last
+   byte is NUL is refused or stays inside the buffer, keeps the buffer shape and advances the line. *)
+Theorem pax_len_guard : forall buf endp line st,
+  pax_buf_ok buf endp -> line < endp ->
+  (exists e, pax_line buf endp line st = Err e) \/
+  (exists buf' st' len, pax_line buf endp line st = Ok (buf', st', len) /\
+     pax_buf_ok buf' endp /\ 1 <= len /\ line + len <= endp).
+Proof. exact pax_line_safe. Qed.
+Print Assumptions pax_len_guard.
+
+(* sparse_window_bounds: one number of the GNU 1.0 map: diff stays within the first block of the window *)
+Theorem sparse_window_bounds : forall st, win_ok st ->
+  (exists e, new_sparse_step st = Err e) \/
+  (exists v st', new_sparse_step st = Ok (v, st') /\ win_ok st' /\ (length (ns_s st') <= length (ns_s st))%nat).
+Proof. exact new_sparse_step_safe. Qed.
+Print Assumptions sparse_window_bounds.
+
+(* every tar_header_t field that decode_header touches lies inside the 512-byte block (layout from the headers) *)
+Theorem decode_header_in_bounds : forall h flags out ver, blen h = sizeof_tar_header_t ->
+  (exists o, decode_header h flags out ver = Ok o) \/ (exists e, decode_header h flags out ver = Err e).
+Proof. exact decode_header_safe. Qed.
+Print Assumptions decode_header_in_bounds.
+
+(* the numeric / small decoders on NUL-terminated or exactly sized inputs *)
+Theorem read_number_safe : forall f, f <> [] -> graceful (read_number f).
+Proof. exact read_number_graceful. Qed.
+Theorem parse_uint_safe : forall s len whole base vmin vmax, In 0 s -> graceful (parse s len whole base vmin vmax).
+Proof. exact parse_graceful. Qed.
+Theorem parse_sint_safe : forall s len whole, In 0 s -> graceful (parse_int s len whole).
+Proof. exact parse_int_graceful. Qed.
+Theorem base64_decode_in_bounds : forall m ip in_len op cap,
+  ip + in_len <= N.of_nat (length m) -> op + cap <= N.of_nat (length m) -> graceful (base64_decode m ip in_len op cap).
+Proof. exact base64_decode_graceful. Qed.
+Theorem hex_decode_in_bounds : forall s in_sz out_sz, in_sz <= N.of_nat (length s) -> graceful (hex_decode s in_sz out_sz).
+Proof. exact hex_decode_graceful. Qed.
+Print Assumptions base64_decode_in_bounds.
+Print Assumptions parse_sint_safe.
+
+(* ---- non-vacuity: a real (v7) archive member "f" of 3 bytes ---- *)
+Definition ex_hdr : list N :=
+  [102] ++ repeat 0 99%nat ++
+  [48; 48; 48; 48; 54; 52; 52; 0; 48; 48; 48; 48; 48; 48; 48; 0; 48; 48; 48; 48; 48; 48; 48; 0;
+   48; 48; 48; 48; 48; 48; 48; 48; 48; 48; 51; 0; 48; 48; 48; 48; 48; 48; 48; 48; 48; 48; 48; 0;
+   48; 48; 52; 54; 54; 55; 0; 32; 48] ++ repeat 0 355%nat.
+Definition ex_tar : list N := ex_hdr ++ [97; 98; 99] ++ repeat 0 509%nat ++ repeat 0 1024%nat.
+
+Example ex_read_header :
+  exists h s', read_header ex_tar = Ok (RH_hdr h s') /\ h_name h = Some [102] /\ h_record h = 3 /\
+               h_mode h = 33188 /\ length s' = 1536%nat.
+Proof. vm_compute. eexists; eexists; repeat split. Qed.
+Example ex_walk : exists h, tar_walk_all ex_tar = Ok [h] /\ h_name h = Some [102].
+Proof. vm_compute. eexists; split; reflexivity. Qed.
+Example ex_eof : read_header [] = Ok RH_eof.
+Proof. vm_compute. reflexivity. Qed.
+Example ex_partial_header : read_header (firstn 300 ex_tar) = Err e_eof.
+Proof. vm_compute. reflexivity. Qed.
+Example ex_bad_checksum : read_header (ex_hdr ++ [0]) <> read_header (98 :: tl ex_hdr ++ [0])
+                          /\ read_header (98 :: tl ex_hdr) = Err e_chksum.
+Proof. vm_compute. split; [discriminate|reflexivity]. Qed.
+(* Crash is reachable in this vocabulary: a field access outside the block / a scan without terminator *)
+Example ex_crash_is_expressible : decode_header (firstn 100 ex_hdr) 0 hdr0 V_V7 = Crash /\ cstr [97; 98] = Crash.
+Proof. vm_compute. split; reflexivity. Qed.
+
+(* ================================================================== *)
+(* (3) the text side (split_line.c, get_line.c trim, sort_by_file.c,   *)
+(*     filemap_xattr.c); a line is l ++ [0], as istream_get_line hands *)
+(*     it out (exactly strlen + 1 bytes)                               *)
+(* ================================================================== *)
+
+(* split_line(line, len, sep, &out) with len <= strlen-capacity: in place (dst <= src), inside the buffer *)
+Theorem split_line_in_place : forall l sep len, len <= TextProofs.blen l -> graceful (split_line (l ++ [0]) sep 0 len).
+Proof. exact split_line_graceful_l. Qed.
+Print Assumptions split_line_in_place.
+
+(* the contract (one more byte behind the len bytes) is needed *)
+Example split_line_contract : split_line [97] [32] 0 1 = Crash.
+Proof. exact split_line_contract_needed. Qed.
+
+Theorem trim_safe : forall l, graceful (trim (l ++ [0]) 0).
+Proof. exact trim_graceful_l. Qed.
+Print Assumptions trim_safe.
+
+(* one line of the sort file: decode_priority, decode_flags (split_line on the bracket, trim of every
+   flag, memmove), decode_filename (in-place unquoting) *)
+Theorem sort_line_safe : forall l, graceful (sort_line (l ++ [0])).
+Proof. exact sort_line_graceful_l. Qed.
+Print Assumptions sort_line_safe.
+
+(* the getfattr value decoder (hex, base64, text with octal escapes into a buffer of strlen + 1 bytes) *)
+Theorem xattr_value_safe : forall l, graceful (xattr_decode (l ++ [0])).
+Proof. exact xattr_decode_graceful_l. Qed.
+Print Assumptions xattr_value_safe.
+
+(* one line of the xattr map file *)
+Theorem xattr_line_safe : forall l have_file, graceful (xattr_line (l ++ [0]) have_file).
+Proof. exact xattr_line_graceful_l. Qed.
+Print Assumptions xattr_line_safe.
+
+(* ---- non-vacuity ---- *)
+(* a "b c"  with separators " \t"  ->  two arguments at offsets 0 and 2 *)
+Example ex_split : exists m, split_line ([97; 32; 34; 98; 32; 99; 34] ++ [0]) [32; 9] 0 7 = Ok (m, [0; 2])
+                             /\ cstr_at m 0 = Ok [97] /\ cstr_at m 2 = Ok [98; 32; 99].
+Proof. vm_compute. eexists; repeat split. Qed.
+Example ex_split_unmatched : split_line ([34; 97] ++ [0]) [32; 9] 0 2 = Err e_quote.
+Proof. vm_compute. reflexivity. Qed.
+(* 5 [glob] "x y" *)
+Example ex_sort_line :
+  sort_line ([53; 32; 91; 103; 108; 111; 98; 93; 32; 34; 120; 32; 121; 34] ++ [0]) = Ok (5%Z, [F_glob], [120; 32; 121]).
+Proof. vm_compute. reflexivity. Qed.
+(* 5 "f"x : refused (this is the line of the known 'no diagnostic' finding) *)
+Example ex_sort_line_trailing : sort_line ([53; 32; 34; 102; 34; 120] ++ [0]) = Err e_sort.
+Proof. vm_compute. reflexivity. Qed.
+(* user.a="a\101"  ->  value "aA" *)
+Example ex_xattr_line :
+  xattr_line ([117; 46; 97; 61; 34; 97; 92; 49; 48; 49; 34] ++ [0]) true = Ok (XL_attr [117; 46; 97] [97; 65]).
+Proof. vm_compute. reflexivity. Qed.
+Example ex_xattr_hex : xattr_decode ([48; 120; 52; 49; 52; 50] ++ [0]) = Ok [65; 66].
+Proof. vm_compute. reflexivity. Qed.
